@@ -39,6 +39,7 @@ From SV Require Import Bytes Lexer Tables ArgCheck ArgSpec Machine Printer GenTa
 Import ListNotations.
 Local Open Scope nat_scope.
 From SV Require Import ArgCheckFacts GateFacts PositionFacts TotalFacts CompleteFacts CompleteTree CompleteExamples CommentFacts RejectFacts RejectExamples.
+From SV Require Import LexRules.
 
 (* feeding an argument sequence to check_next_arg: complete / incomplete / rejected exactly as the specification says, with the same recorded values *)
 Theorem C01_argcheck_correct :
@@ -460,4 +461,8 @@ Example C01_verdicts :
        bs "redirect [];";                 (* empty string list *)
        bs "fileinto ""x"";"]              (* extension not required *)
   = [true; true; false; false; false; false; false; false; false; false; false; false; false; false; false; false].
+Proof. vm_compute. reflexivity. Qed.
+
+(* Parser.lrules of the working tree are the regular expressions the scanners of sieve/Lexer.v were translated from *)
+Example C01_lexer_rules : gen_lrules = expected_lrules.
 Proof. vm_compute. reflexivity. Qed.
